@@ -4,6 +4,8 @@ from __future__ import annotations
 
 import itertools
 
+import re
+
 import numpy as np
 from hypothesis import strategies as st
 
@@ -361,7 +363,9 @@ def _check_selection(o, cname, axis, da, inputs, ref, out) -> None:
             return
         for nm, v in zip(parts, vals):
             if nm in inputs:
-                miss = [t for t in _texts(got) if str(v) not in t]
+                # (provenance texts abbreviate arguments longer than mapprog.TRACE_ARG_LIMIT to "<length#sha1>": such a
+                # text cannot be searched; the equality with the model's slice above is the oracle proper)
+                miss = [t for t in _texts(got) if str(v) not in t and not re.search(r"<\d+#[0-9a-f]{20}>", t)]
                 if miss:
                     out.fail("selection-provenance-lacks-input-element", f"{o} by {nm}={v}: {miss[0][:200]}")
                     return
